@@ -138,7 +138,7 @@ func structLabels(root *vt.Node, recs []*vt.Val) (labels []string, nontrivial bo
 	return labels, innerNil || innerEmpty || multi2
 }
 
-var c03Fixtures = []string{"flat24", "nest", "tiny", "deep", "samename", "rep3", "rep3b", "reqopt"}
+var c03Fixtures = []string{"flat24", "nest", "tiny", "deep", "samename", "rep3", "rep3b", "reqopt", "dupleaf"}
 
 func TestC03(t *testing.T) {
 	cfg := wlCfg{fixtures: fixturesFromEnv(c03Fixtures), maxRecs: envInt("VERIF_MAXRECS", 60), gen: vt.DefaultGen}
